@@ -25,6 +25,12 @@ SELF = [None]             # the instance under construction / operated on
 SELF_CLASS = [None]       # if set: every instance of exactly this class canonicalises to "self"
 FIELD_NAMES = ["x", "y", "z", "_p", "a_b", "w"]
 UNSET = object()
+_TAG = [""]               # prefix captured by callbacks at creation time ("DECOY." while a decoy chain is built)
+
+
+def decode(v):
+    """protocol value -> Python argument: the token "None" is the real None (canonicalised back by _canon)"""
+    return None if v == "None" else v
 
 
 # ------------------------------------------------------------------------------------------ callbacks
@@ -44,31 +50,33 @@ def _canon(v):
     return "other:" + type(v).__name__
 
 
-def _event(kind, field, idx, args):
-    TRACE.append({"id": {"kind": kind, "field": field, "idx": idx}, "args": [_canon(a) for a in args]})
+def _event(kind, field, idx, args, tag=""):
+    TRACE.append({"id": {"kind": tag + kind, "field": field, "idx": idx}, "args": [_canon(a) for a in args]})
     if FAULT[0] == (kind, field, idx):
         raise common.UserError(f"{kind}.{field}.{idx}")
 
 
 def mk_factory(name, takes_self):
+    tag = _TAG[0]
     if takes_self:
         def factory(inst):
-            _event("factory", name, 0, [inst])
-            return f"factory.{name}(self)"
+            _event("factory", name, 0, [inst], tag)
+            return f"{tag}factory.{name}(self)"
     else:
         def factory():
-            _event("factory", name, 0, [])
-            return f"factory.{name}()"
+            _event("factory", name, 0, [], tag)
+            return f"{tag}factory.{name}()"
     return factory
 
 
 def mk_converter(name, kind, ann):
     """kind: plain | c00 | c10 | c01 | c11 (Converter(takes_self, takes_field))"""
     ts, tf = (False, False) if kind == "plain" else (kind[1] == "1", kind[2] == "1")
+    tag = _TAG[0]
 
     def conv(value, *extra):
-        _event("conv", name, 0, [value, *extra])
-        out = f"conv.{name}({_canon(value)}"
+        _event("conv", name, 0, [value, *extra], tag)
+        out = f"{tag}conv.{name}({_canon(value)}"
         for e in extra:
             out += "," + _canon(e)
         return out + ")"
@@ -86,15 +94,19 @@ def mk_converter(name, kind, ann):
 
 
 def mk_validator(name, idx):
+    tag = _TAG[0]
+
     def validator(inst, a, value):
-        _event("validator", name, idx, [inst, a, value])
+        _event("validator", name, idx, [inst, a, value], tag)
     return validator
 
 
 def mk_hook(name, idx=0):
+    tag = _TAG[0]
+
     def hook(inst, a, value):
-        _event("hook", name, idx, [inst, a, value])
-        return f"hook.{name}({_canon(value)})" if idx == 0 else f"hook{idx}.{name}({_canon(value)})"
+        _event("hook", name, idx, [inst, a, value], tag)
+        return f"{tag}hook.{name}({_canon(value)})" if idx == 0 else f"{tag}hook{idx}.{name}({_canon(value)})"
     return hook
 
 
@@ -136,7 +148,7 @@ def _field_obj(f, next_gen):
     kw = {}
     d = f["default"]
     if d == "value":
-        kw["default"] = f"dflt.{f['name']}"
+        kw["default"] = f"{_TAG[0]}dflt.{f['name']}"
     elif d == "factory":
         kw["factory"] = mk_factory(f["name"], False)
     elif d in ("factory_self", "decorator"):
@@ -239,7 +251,20 @@ def build(hspec):
     if len(_CACHE) > 1500:
         _CACHE.clear()
         common.purge_linecache()
-    base = Exception if hspec["classes"][0].get("exc_base") else object
+    root = Exception if hspec["classes"][0].get("exc_base") else object
+    # A decoy chain with the same layout (same names, options, qualnames) but differently tagged callbacks
+    # and defaults is defined FIRST: anything attrs memoises per layout / per name / per qualname and then
+    # leaks into the real chain shows up as "DECOY." values or events in the observation.
+    _TAG[0] = "DECOY."
+    try:
+        base = root
+        for cs in hspec["classes"]:
+            base = build_class(cs, base)
+    except Exception:  # noqa: BLE001  -- the real build below reports definition errors
+        pass
+    finally:
+        _TAG[0] = ""
+    base = root
     out = []
     for cs in hspec["classes"]:
         base = build_class(cs, base)
@@ -444,7 +469,7 @@ def construct(hspec, call, fault=None, validators_enabled=True):
     prev = attr.validators.get_disabled()
     attr.validators.set_disabled(not validators_enabled)
     try:
-        getattr(C, init_name)(inst, *call["pos"], **dict(call["kw"]))
+        getattr(C, init_name)(inst, *[decode(v) for v in call["pos"]], **{k: decode(v) for k, v in call["kw"]})
     except BaseException as e:  # noqa: BLE001
         exc = exc_enum(e)
     finally:
@@ -636,6 +661,11 @@ def gen_call(rng, hspec, malformed=0.15):
 
     def t():
         tok[0] += 1
+        r = rng.random()
+        if r < 0.07:
+            return "None"        # the real None (see decode): "not supplied" must never be confused with it
+        if r < 0.10:
+            return ""            # a falsy value
         return f"t{tok[0]}"
 
     pos, kw = [], []
